@@ -103,21 +103,26 @@ class FortranCodegenConservative(FortranCodegen):
             # conditional is consumed here and must not travel on to the bodies
             kwargs.pop('is_elseif', None)
 
+            # The name of the construct: an `ELSE IF` branch is told by the enclosing conditional
+            name = (kwargs.pop('name', None) or '').strip() or o.name
+
             header = o.source.string.splitlines()[0]
 
             self.depth += self.style.conditional_indent
             body = self.visit(o.body, **kwargs)
             if o.has_elseif:
                 self.depth -= self.style.conditional_indent
-                else_body = [self.visit(o.else_body, is_elseif=True, **kwargs)]
+                else_body = [self.visit(o.else_body, is_elseif=True, name=f' {name}' if name else '', **kwargs)]
             else:
                 else_body = [self.visit(o.else_body, **kwargs)]
                 self.depth -= self.style.conditional_indent
                 if o.else_body:
-                    # Get the `ELSE` from source to get its indentation
+                    # Get the `ELSE` from source to get its indentation; in a named construct
+                    # the keyword may be followed by the name of this construct
+                    keywords = [['ELSE'], ['ELSE', name.upper()]] if name else [['ELSE']]
                     elseline = [
                         s for s in o.source.string.splitlines()
-                        if s.upper().split('!', maxsplit=1)[0].strip() == 'ELSE'
+                        if s.upper().split('!', maxsplit=1)[0].split() in keywords
                     ]
                     else_body = [elseline[-1]] + else_body
 
